@@ -233,6 +233,8 @@ class NPMixin:
         arr = st.heap[base.oid]
         if not isinstance(arr, Arr):
             raise Unsupported('store into %r' % (arr,))
+        if arr.meta and arr.meta.get('view_of') is not None:
+            raise Unsupported('store into a row view of another array')
         ix = self.deref(st, idx)
         if isinstance(ix, Tup) and len(ix.items) == 1 and arr.ndim == 1:
             wm_ = getattr(ix, 'where_mask', None)
